@@ -332,6 +332,17 @@ func runC15(p *core.Prog, r *core.Report) {
 	// ---- R5
 	if endClosure != nil {
 		beg, end, er := attrSources(relay), attrSources(endClosure), attrSources(recClosure)
+		// a deferred *named* function receives its inputs as arguments: map parameters back to what Relay passes
+		if endClosure.Parent() == nil && endDefer != nil {
+			args := sx.Args(endDefer)
+			for k, v := range end {
+				for i, prm := range endClosure.Params {
+					if v == "param:"+prm.Name() && i < len(args) {
+						end[k] = keys(sx.Origins(args[i]))
+					}
+				}
+			}
+		}
 		var ks []string
 		for k := range beg {
 			ks = append(ks, k)
